@@ -14,13 +14,14 @@ import Driver.IntTyDrv
 import Driver.RmRetDrv
 import Driver.EnumCDrv
 import Driver.PpBodyDrv
+import Driver.DupIncDrv
 open Unc
 
 /-- try every handler in turn; a request nobody understands is `bad-op`.
     `blk` = the payload lines (those sent with a leading `+`) preceding the request. -/
 def dispatch (ws : List String) (blk : Array String) : String :=
   let hs : List (List String → Array String → Option String) :=
-    [fun w _ => handleUnicode w, handleRender, fun w _ => handleFs w, handleLex, fun w _ => handleSpace w, fun w _ => handleConfig w, fun w _ => handleCli w, fun w _ => handleBlank w, fun w _ => handleBracket w, fun w _ => handleMiniC w, fun w _ => handleStrip w, fun w _ => handleParen w, fun w _ => handleIntTy w, fun w _ => handleRmRet w, fun w _ => handleEnumC w, fun w _ => handlePpBody w]
+    [fun w _ => handleUnicode w, handleRender, fun w _ => handleFs w, handleLex, fun w _ => handleSpace w, fun w _ => handleConfig w, fun w _ => handleCli w, fun w _ => handleBlank w, fun w _ => handleBracket w, fun w _ => handleMiniC w, fun w _ => handleStrip w, fun w _ => handleParen w, fun w _ => handleIntTy w, fun w _ => handleRmRet w, fun w _ => handleEnumC w, fun w _ => handlePpBody w, fun w _ => handleDupInc w]
   match hs.findSome? (fun h => h ws blk) with
   | some r => r
   | none => "bad-op"
